@@ -108,7 +108,9 @@ Inductive obs :=
 Definition op_first (o : op) : Z := match o with OCur _ t1 _ => t1 | OGet _ _ t => t end.
 Definition op_last (o : op) : Z := match o with OCur _ _ t2 => t2 | OGet _ _ t => t end.
 
-(* clock readings in call order never go back, starting from reading t *)
+(* clock readings in call order never go back, starting from reading t.  (The
+   second reading t2 of a Current that generates nothing is not taken by the code;
+   a real execution is represented with t2 = t1 there, which loses nothing.) *)
 Fixpoint mono (t : Z) (ops : list op) : Prop :=
   match ops with
   | [] => True
